@@ -1,4 +1,5 @@
 import GJS.Model.MinInt
+import GJS.Model.Gen
 import GJS.Spec
 import GJS.Props.C05
 import Mathlib.Tactic.Linarith
@@ -489,5 +490,42 @@ theorem type_fits (z : ZBounds) (v : Int) (hD : InF15 z) (h64 : IntKind.int.inRa
   simp only [Bool.not_true, Bool.false_eq_true, ↓reduceIte]
   rw [getMinIntType_int z]
   exact kind_fits (effLo z) (effHi z) v (fun l h => (hD.1 l h).1) (fun h hh' => (hD.2 h hh').2) hs.1 hs.2 h64
+
+/-! ### the flag rewrites schema nodes in place: what a finished declaration is compared by (K35, K36) -/
+
+/-- without the flag the node a declaration is compared by is the node itself -/
+theorem keptSchema_off (cfg : Config) (t : Schema) (h : cfg.minSizedInts = false) : keptSchema cfg t = t := by
+  simp [keptSchema, h]
+
+/-- the kept bounds of an integer node whose two bounds the chosen type implies: none at all -/
+theorem kept_bounds_cleared (b : IntBounds)
+    (hlo : (getMinIntType b.lo b.hi b.xlo b.xhi).rmLo = true) (hhi : (getMinIntType b.lo b.hi b.xlo b.xhi).rmHi = true) :
+    (primitiveInt true b).2 = { lo := none, hi := none, xlo := .absent, xhi := .absent } := by
+  simp [primitiveInt, hlo, hhi]
+
+def u8Node : Schema := .mk { types := ["integer"], minimum := some 0, maximum := some 255 }
+def plainIntNode : Schema := .mk { types := ["integer"] }
+
+theorem u8_choice : getMinIntType (some 0) (some 255) .absent .absent = ⟨.u8, true, true⟩ := by
+  have := getMinIntType_int { lo := some 0, hi := some 255 }
+  simpa [ZBounds.toIB, XBZ.toXB, effLo, effHi, chooseZ, unsignedChoice, IntKind.hiCmp, IntKind.hi] using this
+
+/-- **K35** (a finding about the code, which the model reproduces): `{integer, 0..255}` and `{integer}` are different
+    nodes, but once `--min-sized-ints` has generated the first, the node kept for it IS the second, so the
+    second reuses the first's `uint8` -/
+theorem KF_rewritten_twin :
+    schemaEq u8Node plainIntNode = false ∧
+    withBounds u8Node (primitiveInt true (nodeBounds u8Node.node)).2 = plainIntNode := by
+  constructor
+  · decide
+  · have h := kept_bounds_cleared (nodeBounds u8Node.node)
+      (by simp [nodeBounds, u8Node, Schema.node, u8_choice]) (by simp [nodeBounds, u8Node, Schema.node, u8_choice])
+    rw [h]; rfl
+
+/-- … and an integer node is compared by exactly that rewritten node (`msRewriteNode` is what `resolveRefs` hands to the
+    merge: K36) -/
+theorem msRewriteNode_integer (f : Nat) (s : Schema) (h : isIntegerNode s.node = true) :
+    msRewriteNode (f + 1) s = withBounds s (primitiveInt true (nodeBounds s.node)).2 := by
+  simp [msRewriteNode, h]
 
 end GJS.Props.C15
